@@ -15,8 +15,8 @@ MASK_LEMMAS = ['mask_index', 'inq_exists', 'inq_member', 'expand_sums', 'split_a
 CLASS_LAYER = [PA + 'Pauli.__matmul__#Pauli', PA + 'Pauli.__neg__', PA + 'Pauli.copy', PA + 'PauliList.copy',
                PA + 'PauliList.rotate_by#nomask', PA + 'PauliList.transform_by#nomask', PA + 'PauliList.rotate_by#mask', PA + 'PauliList.transform_by#mask', ST + 'CliffordMap.copy', ST + 'CliffordMap.compose',
                ST + 'CliffordMap.to_state#r', ST + 'CliffordMap.to_state#none', ST + 'StabilizerState.copy', ST + 'StabilizerState.to_map',
-               ST + 'StabilizerState.expect#list', ST + 'identity_map', ST + 'StabilizerState.measure#list', ST + 'StabilizerState.postselect',
-               ST + 'StabilizerState.expect#state', ST + 'CliffordMap.inverse', ST + 'clifford_rotation_map', ST + 'zero_state', ST + 'maximally_mixed_state', ST + 'StabilizerState.entropy#mask', ST + 'StabilizerState.entropy#qubits', ST + 'random_pauli_map', 'pyclifford/circuit.py::clifford_rotation_gate#noqubits', 'pyclifford/circuit.py::CliffordGate.compile#generator', PA + 'PauliList.__getitem__#int', PA + 'Pauli.rotate_by#nomask', PA + 'Pauli.transform_by#nomask', 'pyclifford/circuit.py::MeasureLayer.forward', PA + 'PauliList.__neg__', PA + 'PauliList.rotate_by#state', PA + 'PauliList.transform_by#state', PA + 'PauliPolynomial.__matmul__#poly', PA + 'Pauli.__matmul__#Monomial',
+               ST + 'StabilizerState.expect#list', ST + 'identity_map', ST + 'StabilizerState.measure#list', ST + 'StabilizerState.measure#state', ST + 'StabilizerState.postselect',
+               ST + 'StabilizerState.expect#state', ST + 'CliffordMap.inverse', ST + 'clifford_rotation_map', ST + 'zero_state', ST + 'maximally_mixed_state', ST + 'StabilizerState.entropy#mask', ST + 'StabilizerState.entropy#qubits', ST + 'StabilizerState.get_prob', ST + 'random_pauli_map', 'pyclifford/circuit.py::clifford_rotation_gate#noqubits', 'pyclifford/circuit.py::CliffordGate.compile#generator', PA + 'PauliList.__getitem__#int', PA + 'Pauli.rotate_by#nomask', PA + 'Pauli.transform_by#nomask', 'pyclifford/circuit.py::MeasureLayer.forward', PA + 'PauliList.__neg__', PA + 'PauliList.rotate_by#state', PA + 'PauliList.transform_by#state', PA + 'PauliPolynomial.__matmul__#poly', PA + 'Pauli.__matmul__#Monomial',
                'pyclifford/circuit.py::CliffordGate.forward#generator_global', 'pyclifford/circuit.py::CliffordGate.backward#generator_global',
                'pyclifford/circuit.py::CliffordGate.forward#map_global'] + GATES[3:] + LOCAL_GATES + LOCAL_STATE + \
               [PA + '%s.__rmul__#%s' % (c, t) for c in ('Pauli', 'PauliList') for t in ('1', 'i', 'm1', 'mi')]
@@ -79,7 +79,7 @@ def C04(run):
 
 def C05(run):
     run.deductive(keys=[U + 'stabilizer_measure', U + 'stabilizer_project', U + 'map_to_state', U + 'clifford_rotate', ST + 'CliffordMap.to_state#r',
-                        ST + 'CliffordMap.to_state#none', ST + 'StabilizerState.copy', ST + 'StabilizerState.measure#list',
+                        ST + 'CliffordMap.to_state#none', ST + 'StabilizerState.copy', ST + 'StabilizerState.measure#list', ST + 'StabilizerState.measure#state',
                         ST + 'StabilizerState.postselect', 'pyclifford/circuit.py::MeasureLayer.forward', U + 'stabilizer_postselection', PA + 'PauliList.rotate_by#state', PA + 'PauliList.transform_by#state', GATES[3], GATES[4], GATES[5],
                         U + 'stabilizer_projection_trace', U + 'mask', PA + 'PauliList.rotate_by#mask', PA + 'PauliList.transform_by#mask'] + LOCAL_STATE, lemmas=MEASURE_LEMMAS + MASK_LEMMAS)
     run.bounded_check('c05_histories', _b().c05_histories, Nmax=3, walks=q(run, 45, 2500), steps=q(run, 10, 30))
@@ -90,7 +90,7 @@ def C05(run):
 
 
 def C06(run):
-    run.deductive(keys=[U + 'stabilizer_measure', U + 'stabilizer_expect', ST + 'StabilizerState.measure#list'], lemmas=MEASURE_LEMMAS)
+    run.deductive(keys=[U + 'stabilizer_measure', U + 'stabilizer_expect', ST + 'StabilizerState.measure#list', ST + 'StabilizerState.measure#state'], lemmas=MEASURE_LEMMAS)
     run.bounded_check('c06_measure', _b().c06_measure, Nmax=q(run, 2, 3), count=q(run, 40, 500), reps=q(run, 3, 6))
     return 'other', ('bounded: Born rule, joint log2-probability, projection postulate and repeatability against dense matrices: all '
                      'tableaux/ranks/signed observables for N=1, random tableaux x all ranks x commuting lists beyond')
@@ -153,10 +153,12 @@ def C11(run):
 
 def C12(run):
     run.deductive(keys=[U + 'map_to_state', U + 'state_to_map', ST + 'CliffordMap.to_state#r', ST + 'CliffordMap.to_state#none', ST + 'StabilizerState.to_map', ST + 'identity_map', U + 'stabilizer_project',
-                        ST + 'zero_state', ST + 'maximally_mixed_state'], lemmas=['acq_bilinear', 'acq_antisym'])
+                        ST + 'zero_state', ST + 'maximally_mixed_state'], lemmas=['acq_bilinear', 'acq_antisym', 'acq_unit', 'acqsum_ext'])
     run.bounded_check('c12_states', _b().c12_states, Nmax=q(run, 3, 3), count=q(run, 20, 300))
     return 'other', ('deductive (all N): map_to_state / state_to_map are the exact row and phase permutations (Z-images -> stabilizers, '
-                     'X-images -> destabilizers); bounded: constructors, to_state/to_map round trip, to_qutip, stabilizer_state against dense matrices')
+                     'X-images -> destabilizers); CliffordMap.to_state turns the canonical commutation relations of a map into the tableau '
+                     'structure of the state; identity_map satisfies them, so zero_state / maximally_mixed_state are the valid Z-basis tableaux '
+                     'with all signs + and rank 0 / N; bounded: constructors, to_state/to_map round trip, to_qutip, stabilizer_state against dense matrices')
 
 
 def C13(run):
